@@ -77,7 +77,36 @@ def drive(rng, requestor, mode):
             if depth >= 3 and rd.obs()[0] == 3:
                 do(["local", "accept"])
                 ab()
-        for _ in range(rng.choice([2, 4, 8, 14])):
+        # directed prefix towards the release / collision states (Sta7..Sta12), which a uniform walk rarely reaches
+        toured = False
+        if rd.obs()[0] == 6 and rng.random() < 0.4:
+            toured = True
+            tour = rng.choice(["rel", "peer-rel", "collide", "collide+", "collide+"])
+
+            def loc(p):
+                settle()
+                if rd.dul.is_alive() and (mode != "sync" or (quiescent() and defined(LOCAL_EVT[p], rd.obs()[0]))):
+                    do(["local", p])
+                    ab()
+
+            if tour == "peer-rel":
+                do(["pdu", 12, False])
+                ab()
+            else:
+                loc("releaseRq")
+                if tour != "rel":
+                    do(["pdu", 12, False])
+                    ab()
+                if tour == "collide+":
+                    if requestor:
+                        loc("releaseRp")
+                    else:
+                        do(["pdu", 13, False])
+                        ab()
+            if rng.random() < 0.5 and (mode != "sync" or quiescent()):
+                do("artimFire")
+                ab()
+        for _ in range(rng.choice([2, 4, 8, 14]) if not toured else rng.choice([1, 2, 4])):
             if not rd.dul.is_alive():
                 break
             k = rng.random()
@@ -155,7 +184,7 @@ def canon_model(o):
     if last != "none":
         last = [last[0], last[1], last[2] == "T" or last[2] is True, last[3]]
     b = lambda x: x == "T" or x is True
-    return [o[0], list(o[1]), list(o[2]), b(o[3]), b(o[4]), b(o[5]), b(o[6]), o[7], o[8], o[9], o[10], last]
+    return [o[0], list(o[1]), list(o[2]), b(o[3]), b(o[4]), b(o[5]), b(o[6]), o[7], o[8], o[9], o[10], last, b(o[12])]
 
 
 TRANSPORT_EVTS = {3, 4, 6, 10, 12, 13, 16, 17, 19}
